@@ -4,6 +4,7 @@ CONSTANTS
   ResultsAliased = FALSE
   GetMemberRewinds = FALSE
   LazyScanDiesOnFault = TRUE
+  CloseForgetsPosition = FALSE
   EmitH = FALSE
 SPECIFICATION Spec
 INVARIANT CacheCoherent
